@@ -3,7 +3,7 @@
     Definitions only (extracted and run against the real application). *)
 From Coq Require Import Strings.String Strings.Byte.
 From Coq Require Import List Arith NArith ZArith Bool.
-From PV Require Import Base.Bytes Base.Outcome Base.KV Compkey.Model Aol.Model Valid.Aol Bank.Model.
+From PV Require Import Base.Bytes Base.Outcome Base.KV Compkey.Model Aol.Model Valid.Aol Bank.Model Did.Model.
 From PV Require Generated.GenConst.
 Import ListNotations.
 
@@ -14,8 +14,14 @@ Inductive aol_msg :=
 | ADeleteWriter (topic writer owner : bytes)
 | AAddRecord (topic key value writer owner feepayer : bytes).
 
+Inductive did_msg :=
+| DCreate (did : bytes) (doc : option did_doc) (vmid sig from : bytes)
+| DUpdate (did : bytes) (doc : option did_doc) (vmid sig from : bytes)
+| DDeactivate (did vmid sig from : bytes).
+
 Inductive base_msg :=
 | BAol (m : aol_msg)
+| BDid (m : did_msg)
 | BSend (from to : bytes) (amt : coins)
 | BGrant (granter grantee type_url : bytes) (expiration : option Z)
 | BRevoke (granter grantee type_url : bytes).
@@ -31,21 +37,29 @@ Record tx := {
 
 Record grant := { gr_granter : bytes; gr_grantee : bytes; gr_url : bytes; gr_exp : option Z }.
 
-Record chain := { c_aol : aol_state; c_bank : bank; c_grants : list grant }.
+Record chain := { c_aol : aol_state; c_did : did_state; c_bank : bank; c_grants : list grant }.
 
 Definition with_aol (c : chain) (a : aol_state) : chain :=
-  {| c_aol := a; c_bank := c_bank c; c_grants := c_grants c |}.
+  {| c_aol := a; c_did := c_did c; c_bank := c_bank c; c_grants := c_grants c |}.
+Definition with_did (c : chain) (d : did_state) : chain :=
+  {| c_aol := c_aol c; c_did := d; c_bank := c_bank c; c_grants := c_grants c |}.
 Definition with_bank (c : chain) (bk : bank) : chain :=
-  {| c_aol := c_aol c; c_bank := bk; c_grants := c_grants c |}.
+  {| c_aol := c_aol c; c_did := c_did c; c_bank := bk; c_grants := c_grants c |}.
 Definition with_grants (c : chain) (g : list grant) : chain :=
-  {| c_aol := c_aol c; c_bank := c_bank c; c_grants := g |}.
+  {| c_aol := c_aol c; c_did := c_did c; c_bank := c_bank c; c_grants := g |}.
+
+Definition empty_chain : chain :=
+  {| c_aol := []; c_did := []; c_bank := {| balances := []; supply := [] |}; c_grants := [] |}.
 
 (** what the environment supplies to a block: bech32 decoding, block time, module addresses *)
 Record env := {
   e_unbech : bytes -> option bytes;
   e_now : Z;
   e_fee_collector : bytes;
-  e_blocked : list bytes }.
+  e_blocked : list bytes;
+  (* cryptography / serialisation oracles of x/did (see Did/Model.v, Section Crypto) *)
+  e_b58key : bytes -> option bytes;
+  e_verify : bytes -> bytes -> bytes -> bool }.
 
 Definition cs_authz : bytes := b "authz".
 
@@ -55,6 +69,9 @@ Definition type_url (m : base_msg) : bytes :=
   | BAol (AAddWriter _ _ _ _ _) => GenConst.url_aol_add_writer
   | BAol (ADeleteWriter _ _ _) => GenConst.url_aol_delete_writer
   | BAol (AAddRecord _ _ _ _ _ _) => GenConst.url_aol_add_record
+  | BDid (DCreate _ _ _ _ _) => GenConst.url_did_create
+  | BDid (DUpdate _ _ _ _ _) => GenConst.url_did_update
+  | BDid (DDeactivate _ _ _ _) => GenConst.url_did_deactivate
   | BSend _ _ _ => GenConst.url_bank_send
   | BGrant _ _ _ _ => GenConst.url_authz_grant
   | BRevoke _ _ _ => GenConst.url_authz_revoke
@@ -76,9 +93,16 @@ Section WithEnv.
   Definition coins_valid (cs : coins) : bool :=
     match cs with [] => false | _ => forallb (fun c => (0 <? snd c)%N) cs end.
 
+  Definition vb_did (m : did_msg) : outcome unit :=
+    match m with
+    | DCreate did doc _ sig from | DUpdate did doc _ sig from => vb_create_update unbech true did doc sig from
+    | DDeactivate did _ sig from => vb_deactivate unbech did sig from
+    end.
+
   Definition vb_base (m : base_msg) : outcome unit :=
     match m with
     | BAol a => vb_aol a
+    | BDid d => vb_did d
     | BSend f t amt =>
         do _ <- validate_addr unbech f;
         do _ <- validate_addr unbech t;
@@ -125,6 +149,7 @@ Section WithEnv.
         | [] => Ok [wa]
         | _ => do fa <- addr_or_panic f; Ok [fa; wa]
         end
+    | BDid (DCreate _ _ _ _ f) | BDid (DUpdate _ _ _ _ f) | BDid (DDeactivate _ _ _ f) => do a <- addr_or_panic f; Ok [a]
     | BSend f _ _ => do a <- addr_or_panic f; Ok [a]
     | BGrant g _ _ _ | BRevoke g _ _ => do a <- addr_or_panic g; Ok [a]
     end.
@@ -167,6 +192,17 @@ Section WithEnv.
         do r <- add_record unbech (e_now e) (c_aol c) t k v w o; Ok (with_aol c (fst r), [snd r])
     end.
 
+  Definition exec_did (c : chain) (m : did_msg) : outcome (chain * list N) :=
+    match m with
+    | DCreate did (Some doc) vmid sig _ =>
+        do d <- create_did (e_b58key e) (e_verify e) marshal_doc (c_did c) did doc vmid sig; Ok (with_did c d, [])
+    | DUpdate did (Some doc) vmid sig _ =>
+        do d <- update_did (e_b58key e) (e_verify e) marshal_doc (c_did c) did doc vmid sig; Ok (with_did c d, [])
+    | DCreate _ None _ _ _ | DUpdate _ None _ _ _ => Panic       (* excluded by ValidateBasic *)
+    | DDeactivate did vmid sig _ =>
+        do d <- deactivate_did (e_b58key e) (e_verify e) marshal_doc (c_did c) did vmid sig; Ok (with_did c d, [])
+    end.
+
   Definition grant_matches (g r u : bytes) (x : grant) : bool :=
     bytes_eqb (gr_granter x) g && bytes_eqb (gr_grantee x) r && bytes_eqb (gr_url x) u.
 
@@ -177,6 +213,7 @@ Section WithEnv.
   Definition exec_base (c : chain) (m : base_msg) : outcome (chain * list N) :=
     match m with
     | BAol a => exec_aol c a
+    | BDid d => exec_did c d
     | BSend f t amt =>
         match unbech f, unbech t with
         | Some fa, Some ta =>
